@@ -125,8 +125,15 @@ def source_scan(modules=None):
     return hits
 
 
+def prop_module(prop):
+    """'C07' -> ('BridgeVerif.Props.C07', 'Bridge.C07'); 'Translated.Score' -> ('BridgeVerif.Translated.Score', 'Bridge.Translated')"""
+    if '.' in prop:
+        return 'BridgeVerif.' + prop, 'Bridge.' + prop.split('.')[0]
+    return f'BridgeVerif.Props.{prop}', f'Bridge.{prop}'
+
+
 def theorems_in(prop):
-    path = os.path.join(LEAN, 'BridgeVerif', 'Props', f'{prop}.lean')
+    path = os.path.join(LEAN, *prop_module(prop)[0].split('.')) + '.lean'
     src = strip_lean_comments(open(path).read())
     return re.findall(r'^theorem\s+([A-Za-z_][A-Za-z0-9_\'.]*)', src, re.M)
 
@@ -138,9 +145,9 @@ def audit(prop, workdir, props=None):
     f = os.path.join(workdir, f'Audit_{prop}.lean')
     with open(f, 'w') as fh:
         for p in props:
-            fh.write(f'import BridgeVerif.Props.{p}\n')
+            fh.write(f'import {prop_module(p)[0]}\n')
         for p, n in names:
-            fh.write(f'#print axioms Bridge.{p}.{n}\n')
+            fh.write(f'#print axioms {prop_module(p)[1]}.{n}\n')
     rc, out = sh(['lake', 'env', 'lean', f], cwd=LEAN, timeout=1200)
 
     def key(p, n):
@@ -149,10 +156,14 @@ def audit(prop, workdir, props=None):
     # messages may wrap over lines: normalise
     flat = re.sub(r'\s+', ' ', out)
     for p in props:
-        for m in re.finditer(r"'Bridge\.%s\.([^']+)' depends on axioms: \[([^\]]*)\]" % p, flat):
-            res[key(p, m.group(1))] = [a.strip() for a in m.group(2).split(',') if a.strip()]
-        for m in re.finditer(r"'Bridge\.%s\.([^']+)' does not depend on any axioms" % p, flat):
-            res[key(p, m.group(1))] = []
+        ns = re.escape(prop_module(p)[1])
+        mine = set(n for q, n in names if q == p)
+        for m in re.finditer(r"'%s\.([^']+)' depends on axioms: \[([^\]]*)\]" % ns, flat):
+            if m.group(1) in mine:
+                res[key(p, m.group(1))] = [a.strip() for a in m.group(2).split(',') if a.strip()]
+        for m in re.finditer(r"'%s\.([^']+)' does not depend on any axioms" % ns, flat):
+            if m.group(1) in mine:
+                res[key(p, m.group(1))] = []
     return res, out, rc
 
 
